@@ -71,6 +71,16 @@ CHECKS = {
             'parameter must carry exactly one sync watcher of the target iff a live link depends on it.',
             'explicit-state BFS over operation histories of the real code vs. a reference model of live links',
             BASE_NOTE),
+    'C10': ('model_checking', 'DESIGN.md §3 C10',
+            'On a hand-stepped virtual asyncio loop (the harness pops every ready callback itself): for every program of <= 3 (thorough 4) assignments '
+            'to an allow_refs parameter drawn from {coroutine function (distinct or one shared function object), async generator with two gated yields, '
+            'coroutine bound to a dependency, plain value, dependency update} every schedule of {perform the next assignment, complete any pending '
+            'non-cancelled future, run one ready callback} with <= 2 (thorough 3) non-draining deviations is executed from scratch; and the same for a '
+            'root piped through a coroutine / async generator with interleaved root updates and reads, watched or not.  At quiescence the parameter / '
+            'expression holds the result of the latest assignment, no superseded result is ever applied after a newer assignment, no task stays '
+            'registered and the syncing marker is clear.',
+            'stateless schedule enumeration (deviation-bounded) of the real code on a controlled virtual event loop',
+            BASE_NOTE + ' Trusted: CPython asyncio Task/Future stepping through BaseEventLoop internals (_ready, _set_running_loop).'),
     'C11': ('exploration', 'DESIGN.md §3 C11',
             'Chains of 2 (all subsets of <= 2, for Number>Number <= 3, explicitly specified attributes per level), chains of 3 (middle class declaring, '
             'not declaring, or declaring a more general type) and diamonds (with and without redeclaration at the join), over the types Parameter / '
